@@ -70,11 +70,33 @@ def read_dump(dump):
 
 
 SUMMARY_RE = re.compile(r"Dumped blocks from height (\d+) to (\d+):\n\t-> transactions:\s+(\d+)\n\t-> inputs:\s+(\d+)\n\t-> outputs:\s+(\d+)")
+_RANGE_RE = re.compile(r"from height (\d+) to (\d+)")
+_TOTAL_RES = [re.compile(r"transactions:\s*(\d+)"), re.compile(r"inputs:\s*(\d+)"), re.compile(r"outputs:\s*(\d+)")]
+HEIGHT_RE = re.compile(r"height\D{0,12}?(\d+)", re.I)
 
 
 def parse_summary(stdout):
+    """(start, last, transactions, inputs, outputs) of the completion summary; tolerant of layout changes: the three
+    labelled totals are searched individually after the last 'Done.' marker."""
     m = SUMMARY_RE.search(stdout)
-    return tuple(int(g) for g in m.groups()) if m else None
+    if m:
+        return tuple(int(g) for g in m.groups())
+    tail = stdout[stdout.rfind("Done."):] if "Done." in stdout else stdout
+    tot = [r.search(tail) for r in _TOTAL_RES]
+    rng = _RANGE_RE.search(tail)
+    if all(tot) and rng:
+        return (int(rng.group(1)), int(rng.group(2))) + tuple(int(t.group(1)) for t in tot)
+    return None
+
+
+def reported_error_height(stderr):
+    """height named by the failure message on stderr (any wording that puts a number after the word 'height')"""
+    for ln in stderr.split("\n"):
+        if "rror" in ln or "ERROR" in ln:
+            m = HEIGHT_RE.search(ln)
+            if m:
+                return int(m.group(1))
+    return None
 
 
 def first_diff(a, b):
